@@ -213,6 +213,9 @@ Proof.
     rewrite dec_u64s_enc by assumption.
     replace (start <? fsize) with false by (symmetry; apply Z.ltb_ge; lia).
     replace (Z.to_nat nstr) with (length ss) by (rewrite <- zlen_to_nat, Wn; reflexivity).
+    replace (zlen (enc_u64s e (st :: ver :: more) ++ gap ++ flat_map (fun s => s ++ [0]) ss ++ trail) <? start) with false.
+    2:{ symmetry. apply Z.ltb_ge. rewrite !zlen_app, zlen_enc_u64s, Wl.
+        pose proof (zlen_nonneg _ (flat_map (fun s => s ++ [0]) ss)). pose proof (zlen_nonneg _ trail). lia. }
     rewrite app_assoc.
     replace (Z.to_nat start) with (length (enc_u64s e (st :: ver :: more) ++ gap)).
     2:{ rewrite <- zlen_to_nat, zlen_app, zlen_enc_u64s. rewrite Wl. f_equal. lia. }
@@ -249,14 +252,14 @@ Proof. induction l as [|[a b] l IH]; [reflexivity|]. unfold unpairs in *. cbn [f
 (* wherever the records lie in the file and in whatever order: if the first [length recs] locations of the header slice
    to well-formed records of one version, the stream reads back as exactly these records, in header order *)
 Theorem maccrash_any_placement : forall e all v rest stype start alllocs recs,
-  wt L_MINIDUMP_MAC_CRASH_INFO v = true ->
+  wt L_MINIDUMP_MAC_CRASH_INFO v = true -> zlen recs <= RD_MAC_RECORDS_MAX ->
   vflat v = stype :: zlen recs :: start :: unpairs alllocs ->
   records_at e all start (firstn (length recs) alllocs) recs ->
   (forall a b, In a recs -> In b recs -> rec_version a = rec_version b) ->
   dec_maccrash e all (enc e L_MINIDUMP_MAC_CRASH_INFO v ++ rest) = Some recs.
 Proof.
-  intros e all v rest stype start alllocs recs Hwt Hv R Same. unfold dec_maccrash.
-  rewrite dec_enc by exact Hwt. rewrite Hv, pairs_unpairs, zlen_to_nat.
+  intros e all v rest stype start alllocs recs Hwt Hmax Hv R Same. unfold dec_maccrash.
+  rewrite dec_enc by exact Hwt. rewrite Hv, pairs_unpairs, Z.min_l by exact Hmax. rewrite zlen_to_nat.
   apply mac_walk_ok; [exact R|exact Same|]. intros r p E. discriminate.
 Qed.
 
@@ -323,7 +326,7 @@ Qed.
 
 (* directory and stream together: the last directory entry of the type points at a stream that starts with the header *)
 Theorem maccrash_served : forall e all v rest stype start alllocs recs l1 size rva l3,
-  wt L_MINIDUMP_MAC_CRASH_INFO v = true ->
+  wt L_MINIDUMP_MAC_CRASH_INFO v = true -> zlen recs <= RD_MAC_RECORDS_MAX ->
   vflat v = stype :: zlen recs :: start :: unpairs alllocs ->
   records_at e all start (firstn (length recs) alllocs) recs ->
   (forall a b, In a recs -> In b recs -> rec_version a = rec_version b) ->
@@ -331,7 +334,7 @@ Theorem maccrash_served : forall e all v rest stype start alllocs recs l1 size r
   ~ In ST_MozMacosCrashInfoStream (map fst l3) ->
   get_stream dec_maccrash e all (l1 ++ (ST_MozMacosCrashInfoStream, (size, rva)) :: l3) ST_MozMacosCrashInfoStream = SOk recs.
 Proof.
-  intros e all v rest stype start alllocs recs l1 size rva l3 Hwt Hv R Same Hs Hnot.
+  intros e all v rest stype start alllocs recs l1 size rva l3 Hwt Hmax Hv R Same Hs Hnot.
   unfold get_stream. rewrite last_entry_wins by exact Hnot. rewrite Hs.
-  rewrite (maccrash_any_placement e all v rest stype start alllocs recs Hwt Hv R Same). reflexivity.
+  rewrite (maccrash_any_placement e all v rest stype start alllocs recs Hwt Hmax Hv R Same). reflexivity.
 Qed.
